@@ -32,6 +32,7 @@ structure DriverState where
   rl : RlState := {}
   rs : Goat.Resolve.Tab := { keys := [], compiled := [] }
   st : Goat.Struct.Heap Int := default
+  tobj : Option (Goat.Struct.TObj String) := none
 
 def step (st : DriverState) (line : String) : DriverState × String :=
   match (line.trimAscii.toString.splitOn " ").filter (· ≠ "") with
@@ -53,6 +54,7 @@ def step (st : DriverState) (line : String) : DriverState × String :=
   | "call" :: args => (st, callCmd args)
   | "cf" :: args => (st, cfCmd args)
   | "ta" :: args => (st, taCmd args)
+  | "to" :: args => let (t, o) := toCmd st.tobj args; ({ st with tobj := t }, o)
   | "st" :: args => let (h, o) := stCmd st.st args; ({ st with st := h }, o)
   | "imap" :: args => let (s, o) := imapCmd st.imap args; ({ st with imap := s }, o)
   | "verify" :: args => (st, verifyCmd args)
